@@ -14,7 +14,9 @@
    expression position, call earlier functions (captured) and themselves (`self`, recursion); and
    C01_module_top_correct_partial with the definitions at any top-level position of the module.
    Calls may be nested anywhere in expressions and conditions (arguments containing calls, recursion in operand position).
-   NOT yet proved: function literals inside blocks / functions, closures over data variables,
+   A function defined at the top level may CAPTURE DATA VARIABLES of the module and read them (by reference: it sees
+   the module's later assignments), directly and through the functions it calls.
+   NOT yet proved: function literals inside blocks / functions, `modify` writes through a captured variable,
    first-class function values, calls in from-loop bounds.
    Those are covered by the T1/T2/T3 correspondences on every run.
 
@@ -72,7 +74,7 @@ Print Assumptions C01_expressions_partial.
    `no_claim` = the reference semantics reports FType 13 (a from-loop counter that a body turned into a non-integer) *)
 Check module_correct.
 Theorem C01_module_correct_partial : forall (path : str) (p : list stmt),
-  ok_block [] None false [] p = true -> ExprBase.small (2 * length (module_code p) + 8) ->
+  ok_block [] None [] false [] p = true -> ExprBase.small (2 * length (module_code p) + 8) ->
   forall fuel : nat, snd (run fuel p) <> ROFuel ->
   no_claim (snd (run fuel p)) \/
   (exists fuel' : nat,
@@ -87,7 +89,7 @@ Print Assumptions C01_module_correct_partial.
    parameters are distinct source names, the body mentions only earlier functions, calls have call-free arguments *)
 Check module_fun_correct.
 Theorem C01_module_fun_correct_partial : forall (path : str) (FT : ftab) (main : list stmt),
-  fns_ok [] FT -> NoDup (fnames FT) -> ok_block FT None false [] main = true ->
+  fns_ok [] FT -> NoDup (fnames FT) -> ok_block FT None [] false [] main = true ->
   ExprBase.small (2 * length (fmodule_code path FT main) + 8) ->
   let p := fmodule FT main in
   forall fuel : nat, snd (run fuel p) <> ROFuel ->
@@ -114,6 +116,8 @@ Print Assumptions C01_module_top_correct_partial.
 Check tcall_ok. Check def_rel. Check C01_nv_stage5_interleaved.
 (* calls nested anywhere in expressions and conditions (rhs_run: expression simulation with calls) *)
 Check rhs_run. Check C01_nv_stage5b.
+(* functions that capture data variables of the module (closures by reference, read access) *)
+Check C01_nv_stage5c.
 (* the same theorem behind a DECIDABLE test: the check evaluates `in_fragment` (extracted) on every program it
    generates and counts the programs for which this theorem speaks about the code the real compiler emitted (T1 equal) *)
 Check fragment_correct.
@@ -127,11 +131,11 @@ Proof. exact fragment_correct. Qed.
 Print Assumptions C01_fragment_correct_partial.
 Check in_fragment_sound.
 Example C01_nv_in_fragment : in_fragment nvp nv_s6 = true /\ in_fragment nvp nv_s4 = true /\ in_fragment nvp nv_s1f = true /\
-  in_fragment nvp nv_s7 = true /\ in_fragment nvp nv_s8 = true /\ in_fragment nvp nv_s9 = true.
+  in_fragment nvp nv_s7 = true /\ in_fragment nvp nv_s8 = true /\ in_fragment nvp nv_s9 = true /\ in_fragment nvp nv_s10 = true.
 Proof. vm_compute. repeat split. Qed.
-(* ... and it rejects what is outside: a closure over a data variable *)
+(* ... and it rejects what is outside: a `modify` write through a captured variable *)
 Example C01_nv_not_in_fragment :
-  in_fragment nvp [SAssign [120%N] (EInt 1); SAssign [102%N] (EFn [] [SReturn (Some (EVar [120%N]))]); SPrint (ECall (EVar [102%N]) [])] = false.
+  in_fragment nvp [SAssign [120%N] (EInt 1); SAssign [102%N] (EFn [] [SModify [120%N] (EInt 2); SReturn (Some (EVar [120%N]))]); SPrint (ECall (EVar [102%N]) [])] = false.
 Proof. vm_compute. reflexivity. Qed.
 Check fun_sim.
 Check gcall_ok.
